@@ -158,13 +158,9 @@ def run(ctx) -> None:
     ds = idx.function(SR, "System_R.double_spin")
     r1.instance(ds.short)
     cfg, du, pm = fctx(ds)
-    t = norm(ds.node).replace(" ", "")
-    r1.check("forkeyinself._XX_R:" in t and "XX_new[:,i::2,i::2]=XX" in t and "self.set_R_mat(key,XX_new,reset=True)" in t,
-             "double_spin rebuilds every matrix", ds, ds.node, "double_spin does not rebuild every _XX_R matrix", stmt="matrices")
+    from .c25 import double_spin_rule
+    double_spin_rule(ctx, r1)
     cst = [s for s in stmts(ds.node) if isinstance(s, ast.Assign) and "self.wannier_centers_cart" in norm(s.targets[0])]
-    dc = [c for c in method_calls(ds.node, "double_spin") if norm(c.func.value) == "self.rvec"]
-    r1.check(len(cst) >= 2 and len(dc) == 1, "double_spin doubles centres and R-vector shifts", ds, ds.node,
-             "double_spin does not double both the centres and the R-vector shifts", stmt="centres+shifts")
     clears = [cfg.node(enclosing(pm, c, ast.stmt)) for c in method_calls(ds.node, "clear_cached_wcc")]
     r1.check(bool(clears) and all(cfg.must_pass(cfg.node(s), clears) for s in cst), "double_spin: caches cleared after the centre writes", ds,
              cst[-1] if cst else ds.node, "double_spin does not clear the cached centres after rewriting them")
@@ -192,13 +188,7 @@ def run(ctx) -> None:
              ro, ro.node, f"Rvectors.reorder(order) has a path where the shifts end as left={bad[0] if bad else None}, "
              f"right={bad[1] if bad else None}, caches cleared={bad[2] if bad else None}: only one side of R + τj − τi follows the new "
              f"order of the Wannier functions", stmt="reorder(order) paths")
-    rd = idx.function(RV, "Rvectors.double_spin")
-    r2.instance(rd.short)
-    t = norm(rd.node).replace(" ", "")
-    r2.check("shifts_left_red_new[i::2]=self.shifts_left_red" in t and "shifts_right_red_new[i::2]=self.shifts_right_red" in t and
-             "self.shifts_left_red=shifts_left_red_new" in t and "self.shifts_right_red=shifts_right_red_new" in t and "self.clear_cached()" in t,
-             "double_spin doubles left and right shifts and clears caches", rd, rd.node,
-             "Rvectors.double_spin does not double both shift arrays / clear caches", stmt="double_spin")
+    r2.instance("Rvectors.double_spin (decided with System_R.double_spin under R05.1)")
 
     # ---------------------------------------------------------------- R05.3
     r3 = ctx.rule("R05.3", "shift-dependent cached quantities are invalidated by clear_cached")
